@@ -40,7 +40,10 @@ structure Mon where
   lastGiveMe : Option Nat := none
   startOk : Nat := 0
   lastNeeds : Option Nat := none
-  auditInFlight : Bool := false   -- an audit reset happened while an Enqueue was inside the library (finding F9)
+  auditInFlight : Bool := false
+  paused : Bool := false            -- between a pause event and its resume event
+  expectPause : Bool := false       -- an effective Pause() call has been made; its pause event is due
+  stopAsked : Bool := false   -- an audit reset happened while an Enqueue was inside the library (finding F9)
 
 def Mon.add (m : Mon) (p r : String) : Mon :=
   if m.viols.contains (p, r) then m else { m with viols := m.viols ++ [(p, r)] }
@@ -81,7 +84,11 @@ def monitorHist (sc : HScn) (entries : List String) : List (String × String) :=
         let began := (m.calls.find? (·.k == n2)).map (·.t)
         if (began.getD 0) > (m.shutdownAt.getD 0) then m := m.add "C16" "enqueue-after-shutdown-succeeds"
     else if kind == "act" then
-      if a2 == "P" then m := { m with pauseCalls := m.pauseCalls + 1 }
+      if a2 == "P" then
+        -- effective iff the Batcher is running and not paused (and nobody is stopping it concurrently)
+        let eff := m.started.isSome && !m.paused && m.shutdownAt.isNone && !m.stopAsked && !m.expectPause
+        m := { m with pauseCalls := m.pauseCalls + 1, expectPause := m.expectPause || eff }
+      else if a2 == "X" then m := { m with stopAsked := true }
       else if a2 == "k" then m := { m with stale := true, costs := (n3, ((f.getD 4 "").toNat?).getD 0) :: m.costs }
       else if a2 == "S" then
         if a3 == "ok" then
@@ -126,9 +133,10 @@ def monitorHist (sc : HScn) (entries : List String) : List (String × String) :=
         m := { m with shutdowns := m.shutdowns + 1, shutdownAt := some t }
       else if a2 == "pause" then
         if n3 != sc.pauseMs then m := m.add "C13" "pause-event-value"
-        m := { m with pauseAt := some t, pauseEvents := m.pauseEvents + 1 }
+        m := { m with pauseAt := some t, pauseEvents := m.pauseEvents + 1, paused := true, expectPause := false }
         if m.pauseEvents > m.pauseCalls then m := m.add "C13" "more-pauses-than-effective-calls"
       else if a2 == "resume" then
+        m := { m with paused := false }
         match m.pauseAt with
         | some p => if t != p + sc.c.pause then m := m.add "C13" "resume-not-exactly-pausetime-after-pause"
         | none => m := m.add "C13" "resume-without-pause"
@@ -160,9 +168,26 @@ def monitorHist (sc : HScn) (entries : List String) : List (String × String) :=
       | none => m := m.add "C01" "callback-without-a-raised-batch"
     else if kind == "cbret" then
       m := { m with batches := m.batches.map fun b => if b.harnessB == some n2 then { b with cbRet := some t } else b }
+    else if kind == "end" then
+      -- starvation: with no rate limiter every cycle empties the buffer as far as batch slots allow. An operation
+      -- accepted at least three flush intervals before the end of a history whose last three intervals saw a
+      -- running, unpaused Batcher with every batch finished must have been delivered.
+      let quiet := 3 * sc.c.flushInt
+      let running := m.started.isSome && m.shutdownAt.isNone && !m.stopAsked && !m.paused &&
+        (match m.pauseAt with | some p => decide (p + sc.c.pause + quiet ≤ t) | none => true) &&
+        (match m.started with | some s0 => decide (s0 + quiet ≤ t) | none => false)
+      let allDone := m.batches.all fun b => batchFinished sc b (t - quiet)
+      if !sc.c.limited && running && allDone && t ≥ quiet then
+        if m.calls.any (fun c => c.res == some "ok" && c.delivered.isNone && c.t + quiet ≤ t) then
+          m := m.add "C08" "accepted-operation-not-delivered-although-nothing-holds-it-back"
+          m := m.add "C01" "accepted-operation-never-delivered"
     else if kind == "sample" then
       let needs := n2
       let inbuf := n3
+      -- the system is settled: an effective Pause() must have raised its pause event by now
+      if m.expectPause && !m.stopAsked && m.shutdownAt.isNone then
+        m := { m with expectPause := false }
+        m := m.add "C13" "effective-pause-call-without-pause-event"
       let infl : Int := ((f.getD 4 "").toInt?).getD 0
       if m.shutdownAt.isNone then
         -- C15: bounded
@@ -222,6 +247,12 @@ def checkHist (inp obs : KV) : Option String × List (String × String) :=
   let entries := if obs.get "tr" == "-" || obs.get "tr" == "" then [] else (obs.get "tr").splitOn ";"
   let (mm, inconclusive) := acceptHist sc (inp.nat "cap") entries
   let mm := if inconclusive then some ("fields=inconclusive candidate-set-bound-hit " ++ (mm.getD "").take 300) else mm
-  (mm, monitorHist sc entries)
+  -- a library goroutine was still blocked after every callback, caller and loop had been released
+  let leak := if obs.has "leak" then
+      [("C20", "goroutine-blocked-forever")] ++
+      (if sc.c.gen == .v2 && sc.c.mcb > 0 then [("C10", "goroutine-blocked-forever-with-slot-limit")] else [])
+    else []
+  let mm := if obs.has "leak" && mm.isNone then some "fields=leak goroutine-blocked-forever" else mm
+  (mm, monitorHist sc entries ++ leak)
 
 end GoBatcher.Driver
